@@ -17,12 +17,34 @@ import (
 // provider's own reward / collateral, never below zero, and touches nobody else's pledge.
 func Ob_C19_RecoverFaults() {
 	w := NewWorld()
+	sym.SetBound("Order.Shards", 1)
 	var msg saotypes.MsgRecoverFaults
 	sym.Fill("msg", &msg)
 	sym.Assume(len(msg.Faults) == 1 && msg.Faults[0] != nil)
+	in := msg.Faults[0]
+	_, ec := sdk.AccAddressFromBech32(msg.Creator)
+	sym.Assume(ec == nil) // a transaction signer is an account address
 	reporter, isNode := w.Node.GetNode(w.Ctx, msg.Creator)
 	fishmen := w.Node.FishmenInfo(w.Ctx)
-	p0, hadP := w.Node.GetPledge(w.Ctx, msg.Provider)
+	// the recorded fault the entry points at; its confirmation trail is one of a few concrete shapes (the
+	// handler counts and splits it - symbolic trails are the thorough tier's subject)
+	rec, hasRec := w.Node.GetFaultBySpAndShardId(w.Ctx, in.Provider, in.ShardId)
+	sym.Assume(hasRec && rec != nil && rec.Provider == in.Provider && rec.ShardId == in.ShardId && rec.FaultId != "" && rec.Penalty < 1<<20)
+	trails := []string{"+sao1fishmanaaaaaaaaaaaaaaaaaaaaaaaaaaaaaaaa", "+sao1fishmanaaaaaaaaaaaaaaaaaaaaaaaaaaaaaaaa|+sao1fishmanbbbbbbbbbbbbbbbbbbbbbbbbbbbbbbbb",
+		"+sao1fishmanaaaaaaaaaaaaaaaaaaaaaaaaaaaaaaaa|+sao1fishmanbbbbbbbbbbbbbbbbbbbbbbbbbbbbbbbb|-sao1fishmanaaaaaaaaaaaaaaaaaaaaaaaaaaaaaaaa"}
+	k := sym.Int("trail")
+	nTrails := 2
+	if sym.Tier() != "quick" {
+		nTrails = 3
+	}
+	sym.Assume(k >= 0 && k < nTrails)
+	k = sym.ConcreteInt(k, 0, 2)
+	rec.Confirms = trails[k]
+	pen := sym.Int("penaltyPeriods") // periods the fault stayed confirmed: 0..2 (the penalty is linear in it)
+	sym.Assume(pen >= 0 && pen <= 2)
+	rec.Penalty = uint64(sym.ConcreteInt(pen, 0, 2))
+	w.Node.SetFault(w.Ctx, rec)
+	p0, hadP := w.Node.GetPledge(w.Ctx, in.Provider)
 	snap, nT := w.Snapshot(), w.TransferCount()
 	var err error
 	panicked, _ := sym.Catch(func() { _, err = w.SaoMsg.RecoverFaults(sdk.WrapSDKContext(w.Ctx), &msg) })
@@ -36,14 +58,18 @@ func Ob_C19_RecoverFaults() {
 		!w.WrittenOutside(snap, "node", nodetypes.FaultIdKeyPrefix, nodetypes.FaultKeyPrefix, nodetypes.FishingRewardKey, nodetypes.PledgeKeyPrefix))
 	if w.WrittenAny(snap, "node") {
 		sym.Cover("C19.recover-recorded")
+		isFishman := isNode && strings.Contains(fishmen, reporter.Creator)
 		self := msg.Creator == msg.Provider
-		sym.Assert("C19.recover-reporter", isNode && (self || strings.Contains(fishmen, reporter.Creator)))
+		sym.Assert("C19.recover-reporter", isNode && (self || isFishman))
+		// whoever is not a fishman touches only a fault recorded against itself
+		sym.Assert("C19.recover-own-fault-only", isFishman || rec.Provider == msg.Creator)
+		sym.Assert("C19.recover-names-accused", rec.Provider == msg.Provider)
 	}
 	for _, k := range w.WrittenString(snap, "node", nodetypes.PledgeKeyPrefix, "/") {
-		sym.Assert("C19.penalty-only-accused-pledge", k == msg.Provider)
+		sym.Assert("C19.penalty-only-accused-pledge", k == in.Provider)
 	}
 	if hadP {
-		p1, has := w.Node.GetPledge(w.Ctx, msg.Provider)
+		p1, has := w.Node.GetPledge(w.Ctx, in.Provider)
 		sym.Assert("C19.penalty-capped", has && !p1.Reward.Amount.IsNegative() && !p1.RewardDebt.Amount.IsNegative() && !p1.TotalStoragePledged.Amount.IsNegative() &&
 			p1.Reward.Amount.LTE(p0.Reward.Amount) && p1.TotalStoragePledged.Amount.LTE(p0.TotalStoragePledged.Amount) &&
 			p1.TotalStorage == p0.TotalStorage && p1.UsedStorage == p0.UsedStorage && p1.TotalShardPledged.Amount.Equal(p0.TotalShardPledged.Amount))
@@ -258,4 +284,40 @@ func Ob_C12C04_Timeout_ReplicaReduction() {
 	}
 	sym.Assert("C04.reduction-refund-amount", refunded.Equal(expected))
 	sym.Assert("C04.reduction-books-refund", o1.Amount.Amount.Equal(o.Amount.Amount.Sub(refunded)))
+}
+
+// C02/C12 second timeout round: the order already carries a shard that timed out earlier next to the
+// replacement that is waiting now; the end blocker returns (no panic with more spare providers than waiting
+// shards) and hands out at most one replacement per waiting shard.
+func Ob_C02C12_Timeout_SecondRound() {
+	w := NewWorld()
+	sym.SetBound("Order.Shards", 2)
+	sym.SetEnumBound("node", nodetypes.NodeKeyPrefix, 2)
+	sym.SetBound("Node.TxAddresses", 0)
+	id := sym.Uint64("orderId")
+	o, found := w.Order.GetOrder(w.Ctx, id)
+	sym.Assume(found && o.Status == ordertypes.OrderDataReady && len(o.Shards) == 2 && o.Id == id && o.Shards[0] != o.Shards[1])
+	s0, f0 := w.Order.GetShard(w.Ctx, o.Shards[0])
+	s1, f1 := w.Order.GetShard(w.Ctx, o.Shards[1])
+	sym.Assume(f0 && f1 && s0.Status == ordertypes.ShardTimeout && s1.Status == ordertypes.ShardWaiting && s0.Id == o.Shards[0] && s1.Id == o.Shards[1] && s0.Sp != s1.Sp)
+	sym.Assume(uint64(w.Height())+o.Timeout < o.CreatedAt+o.Duration && uint64(w.Height()) >= o.CreatedAt)
+	sc := w.Order.GetShardCount(w.Ctx)
+	sym.Assume(sc < 1<<60 && sc > s0.Id && sc > s1.Id)
+	_, taken := w.Order.GetShard(w.Ctx, sc)
+	sym.Assume(!taken)
+	// the re-assignment branch: not yet at the give-up bound (that branch is Ob_C05C12_Timeout_GiveUp's subject)
+	sym.Assume(uint64(w.Height())-o.CreatedAt <= 10*o.Timeout && o.Timeout >= 1)
+	w.Sao.HandleTimeoutOrder(w.Ctx, id) // a panic here halts the chain
+	sym.Cover("C02.second-round-returns")
+	o1, still := w.Order.GetOrder(w.Ctx, id)
+	if still {
+		sym.Assert("C12.second-round-at-most-one-replacement", len(o1.Shards) <= 3)
+		if len(o1.Shards) == 3 {
+			sym.Cover("C12.second-round-reassigned")
+			ns, nf := w.Order.GetShard(w.Ctx, o1.Shards[2])
+			sym.Assert("C13.second-round-new-shard", nf && ns.OrderId == id && ns.Status == ordertypes.ShardWaiting && ns.Sp != s0.Sp && ns.Sp != s1.Sp)
+			old, of := w.Order.GetShard(w.Ctx, s1.Id)
+			sym.Assert("C12.second-round-marks-waiting-shard", of && old.Status == ordertypes.ShardTimeout)
+		}
+	}
 }
